@@ -148,7 +148,10 @@ func sortObs(obs []Obligation) {
 func short(s string, n int) string {
 	s = strings.ReplaceAll(s, "\n", " ")
 	if len(s) > n {
-		return s[:n] + "…"
+		r := []rune(s)
+		if len(r) > n {
+			return string(r[:n]) + "…"
+		}
 	}
 	return s
 }
